@@ -139,6 +139,8 @@ def run(repo: Repo, rep: Report, tier: str) -> None:
     from ..core.report import Only
     from . import c09 as _c09
     _c09.run(repo, Only(rep, {"R09.2"}), tier)
+    from ..core import helper_contracts as _hc2
+    _hc2.report(repo, rep, "R09.6", _hc2.dataclass_fields_contract(repo), "mashumaro.core.meta.code.builder::CodeBuilder.dataclass_fields")
 
 # --------------------------------------------------------------------------- R01.2 sign domain
 def _r01_2(repo: Repo, rep: Report) -> None:
@@ -292,3 +294,6 @@ def _r01_5(repo: Repo, rep: Report) -> None:
 _ADDENDUM = ' R01.5 also requires the specialisation key to be a cryptographic digest of the joined names with no lossy step. Borrowed: R09.2 (the by-alias key resolution of the field block, which the round trip by alias depends on).'
 EXPLANATION += _ADDENDUM
 LEVEL_TEXT += _ADDENDUM
+_ADD3 = " Borrowed: R09.6 (dataclass_fields: the nearest ancestor's Field wins; a bare re-annotation drops the inherited Field)."
+EXPLANATION += _ADD3
+LEVEL_TEXT += _ADD3
